@@ -196,7 +196,7 @@ func runWorkload(t *rapid.T, run c04Run, st *vfkit.Collector, label string) {
 					return
 				}
 				defer u.Close()
-				for done := 0; done < run.perClient; {
+				for done := 0; done < run.perClient && firstErr.Load() == nil; {
 					w := 1 + int(rng.next())%8
 					type sentQ struct {
 						tr   c04Triple
@@ -227,7 +227,7 @@ func runWorkload(t *rapid.T, run c04Run, st *vfkit.Collector, label string) {
 					tc = insecure
 				}
 				var sc *StreamClient
-				for done := 0; done < run.perClient; {
+				for done := 0; done < run.perClient && firstErr.Load() == nil; {
 					if sc == nil {
 						var err error
 						sc, err = DialStream("", addr, tc, 3*time.Second)
@@ -254,7 +254,12 @@ func runWorkload(t *rapid.T, run c04Run, st *vfkit.Collector, label string) {
 						done += w
 						continue
 					}
-					frames, _, closed := sc.ReadFrames(w, 9*time.Second)
+					frames, rest, closed := sc.ReadFrames(w, 9*time.Second)
+					if len(frames) < w && !run.cancelRich {
+						// a stream transport does not lose data: an incomplete burst means the return stream is
+						// out of sync (torn / overwritten frames) or a response is missing
+						fail("%s: only %d of %d pipelined queries were answered with well-formed frames (%d stray octets, closed=%v): %s", kind, len(frames), w, len(rest), closed, vfkit.Hex(rest))
+					}
 					for _, f := range frames {
 						tr, ok := trs[f.Msg.ID]
 						if !ok {
@@ -278,7 +283,7 @@ func runWorkload(t *rapid.T, run c04Run, st *vfkit.Collector, label string) {
 			default: // http, fasthttp, https, quic: sequential over a kept-alive connection
 				a := NewAsker(block+"10", "")
 				defer a.Close()
-				for done := 0; done < run.perClient; done++ {
+				for done := 0; done < run.perClient && firstErr.Load() == nil; done++ {
 					tr, nm := pick()
 					id := uint16(done + c*4096)
 					res := a.Ask(kind, Query(id, nm, tr.typ, tr.class, rng.next()%2 == 0), 9*time.Second, 0)
@@ -368,8 +373,8 @@ func runWorkload(t *rapid.T, run c04Run, st *vfkit.Collector, label string) {
 
 func genRun(t *rapid.T, cancelRich bool) c04Run {
 	run := c04Run{cancelRich: cancelRich}
-	ls := rapid.SliceOfNDistinct(rapid.SampledFrom(AllListenerKinds), 2, 6, func(s string) string { return s }).Draw(t, "listeners")
-	run.listeners = ls
+	// every run uses every listener kind (each has its own buffer handling); the order decides which kinds get more clients
+	run.listeners = rapid.Permutation(AllListenerKinds).Draw(t, "listeners")
 	run.upKinds = rapid.SliceOfNDistinct(rapid.SampledFrom([]string{"udp", "tcp", "tcp+pipeline", "tls", "tls+pipeline", "https", "quic", "h3"}), 2, 4, func(s string) string { return s }).Draw(t, "upstreams")
 	run.cache = rapid.SampledFrom([]string{"off", "large", "tiny", "tiny"}).Draw(t, "cache")
 	run.ttl = rapid.SampledFrom([]uint32{1, 2, 60}).Draw(t, "ttl")
@@ -382,7 +387,7 @@ func genRun(t *rapid.T, cancelRich bool) c04Run {
 }
 
 func TestVfC04Mixups(t *testing.T) {
-	st := vfkit.Stats("TestVfC04Mixups", "runs of 8-48 concurrent clients over 2-6 listener kinds x 60-300 queries each from a pool of 20-400 (name,type,class) triples (mixed case, with/without OPT), 2-4 upstream kinds with per-reply delays (reordering), cache off/large/tiny, TTL 1-60 s, GOMAXPROCS {default,2,4}, against the -race -tags verif binary; oracle per response: question and keyed answer belong to this response's own query, no poison octets anywhere, no race report, no canary; non-trivial = >= 8 queries simultaneously in flight at an upstream with >= 2 listener kinds and >= 2 upstream kinds")
+	st := vfkit.Stats("TestVfC04Mixups", "runs of 8-48 concurrent clients spread over all 8 listener kinds x 60-300 queries each from a pool of 20-400 (name,type,class) triples (mixed case, with/without OPT), 2-4 upstream kinds with per-reply delays (reordering), cache off/large/tiny, TTL 1-60 s, GOMAXPROCS {default,2,4}, against the -race -tags verif binary; oracle per response: question and keyed answer belong to this response's own query, no poison octets anywhere, no race report, no canary; non-trivial = >= 8 queries simultaneously in flight at an upstream with >= 2 listener kinds and >= 2 upstream kinds")
 	defer vfkit.Flush()
 	rapid.Check(t, func(t *rapid.T) {
 		runWorkload(t, genRun(t, false), st, "c04")
